@@ -41,7 +41,7 @@
 	((q)->lmq_cap == __CPROVER_old((q)->lmq_cap) &&                      \
 	    (q)->lmq_alloc == __CPROVER_old((q)->lmq_alloc) &&               \
 	    (q)->lmq_mask == __CPROVER_old((q)->lmq_mask) &&                 \
-	    (q)->lmq_msgs == __CPROVER_old((q)->lmq_msgs))
+	    VP_SAME_PTR((q)->lmq_msgs))
 
 /* pre-state snapshot into locals of the function under contract (woven at the
  * function entry; only read by vp/replay.py from counterexample traces) */
